@@ -1,9 +1,10 @@
 """Which units (and extra engines) serve which property, plus MANIFEST metadata."""
-UNITS = ['u_list', 'u_jobs']
+UNITS = ['u_list', 'u_jobs', 'u_tok']
 
 PROPERTY_UNITS = {
     'C03': ['u_list'],
     'C06': ['u_jobs'],
+    'C05': ['u_list', 'u_jobs', 'u_tok'],
 }
 EXTRA_ENGINES = {}
 HOOK_COMMITS = []
@@ -27,6 +28,13 @@ META['C06'] = {
             '(same-gid job has all smaller ids occupied, pid fresh) assumed; job-control event protocol (wait_fg_job / try_wait_bg_jobs) is U-WAIT.',
 }
 
+META['C05'] = {
+    'text': 'For every function brought under contract Verus discharges, for ALL inputs, every slice/Vec index, every unwrap/expect, every machine-integer '
+            '+ - *, and a decreases measure for every loop and recursion (tokenizer, list splitter, list evaluation, planning, expansion passes, job table).',
+    'note': 'regex/glob/pest calls assumed not to panic or diverge; std contracts of vstd; functions outside the units (highlighter byte slicing, '
+            'completion word-start, pty layer) are not covered by proof; see evidence.bounded for stand-ins.',
+}
+
 _PENDING = 'not yet brought under contract in this revision of /verif (work in progress; see DESIGN.md)'
 NOT_APPLICABLE = {
     'C14': 'parse tree comes from a macro-generated pest parser and the external, lifetime-parameterised pest::iterators::Pair type; no contract within reach',
@@ -34,5 +42,5 @@ NOT_APPLICABLE = {
     'C18': 'semantics live in SQLite\'s SQL parser (bundled C library); SQL is built with format!, outside Verus',
     'C20': 'needs the lineread completer protocol, a populated filesystem and the escaped-word round trip (a recorded C01 violation)',
 }
-for _p in ['C01', 'C02', 'C04', 'C05', 'C07', 'C08', 'C09', 'C10', 'C11', 'C12', 'C13', 'C15', 'C17', 'C19']:
+for _p in ['C01', 'C02', 'C04', 'C07', 'C08', 'C09', 'C10', 'C11', 'C12', 'C13', 'C15', 'C17', 'C19']:
     NOT_APPLICABLE.setdefault(_p, _PENDING)
